@@ -143,19 +143,34 @@ func (x *c17Gen) setMeta(c int, mode string) string {
 			}
 		}
 		return fmt.Sprintf("setmeta %d %d %d %d %d %d %s %s 0 0 0 0", c, r.Range(1, 3), r.Range(1, 3), m.leader, minisr, 100, c17Join(m.replicas), c17Join(m.isr))
-	case "bump": // same membership and fence, newer epochs / other leader: makes stored proofs stale
+	case "bump": // same membership and fence; ONE authority field (or all) moves on: stored proofs become stale
 		if !m.set {
 			return x.setMeta(c, "fresh")
-		}
-		if r.Chance(40) {
-			m.leader = m.isr[r.Intn(len(m.isr))]
 		}
 		for _, t := range x.tasks {
 			if t.c == c {
 				t.badProof = true
 			}
 		}
-		return fmt.Sprintf("setmeta %d %d %d %d %d %d %s %s * * * *", c, r.Range(2, 5), r.Range(2, 6), m.leader, 1, 150, c17Join(m.replicas), c17Join(m.isr))
+		cep, lep, leader := "*", "*", "*"
+		switch r.Pick(25, 25, 25, 25) {
+		case 0:
+			cep = "^"
+			x.g.Count("env:bump-channel-epoch-only")
+		case 1:
+			lep = "^"
+			x.g.Count("env:bump-leader-epoch-only")
+		case 2:
+			m.leader = x.pickNot(m.isr, m.leader)
+			leader = fmt.Sprint(m.leader)
+			x.g.Count("env:bump-leader-only")
+		default:
+			cep, lep = "^", "^"
+			m.leader = m.isr[r.Intn(len(m.isr))]
+			leader = fmt.Sprint(m.leader)
+			x.g.Count("env:bump-all")
+		}
+		return fmt.Sprintf("setmeta %d %s %s %s * * %s %s * * * *", c, cep, lep, leader, c17Join(m.replicas), c17Join(m.isr))
 	case "fullisr": // minISR = |replicas| with the live replica-replace learner counted: an abort would then shrink below minISR
 		if !m.set {
 			return x.setMeta(c, "fresh")
@@ -299,7 +314,7 @@ const c17NoProof = "0 0 0 0 0 0 0"
 // proof returns proof tokens; bad = the generator expects the cutover to refuse it.
 func (x *c17Gen) proof() (string, bool) {
 	r := x.r()
-	switch r.Pick(76, 5, 5, 5, 5, 4) {
+	switch r.Pick(72, 4, 5, 10, 5, 4) {
 	case 0:
 		return fmt.Sprintf("%d %d * * * * *", 10, r.Range(5, 10)), false
 	case 1:
@@ -384,7 +399,7 @@ func (x *c17Gen) scriptedStep(t *c17GTask) string {
 			t.phase = 6
 			return x.advance(t, 2, 6, c17NoProof, 0, "0")
 		case 6:
-			if t.badProof && r.Chance(60) {
+			if t.badProof && r.Chance(45) {
 				return reproof()
 			}
 			nle := "^"
@@ -442,7 +457,7 @@ func (x *c17Gen) scriptedStep(t *c17GTask) string {
 			t.phase = 25
 			return x.advance(t, 2, 25, c17NoProof, 0, "0")
 		case 25:
-			if t.badProof && r.Chance(60) {
+			if t.badProof && r.Chance(45) {
 				return reproof()
 			}
 			if t.badProof {
@@ -611,8 +626,14 @@ func genC17(g *Gen) {
 		}
 		n := r.Range(15, 50)
 		for i := 0; i < n; i++ {
+			atCutover := false
+			for _, t := range x.tasks {
+				if !t.dead && (t.phase == 6 || t.phase == 25 || t.phase == 5) {
+					atCutover = true
+				}
+			}
 			switch {
-			case r.Chance(4):
+			case r.Chance(4) || (atCutover && r.Chance(12)):
 				c := 1 + r.Intn(2)
 				mode := []string{"bump", "bump", "bump", "foreignfence", "foreignfence", "fullisr", "fresh", "junk"}[r.Intn(8)]
 				g.Count("env:setmeta-" + mode)
